@@ -215,7 +215,11 @@ def seq_append(ex, s: Seq, t: Seq):
             el.append(old)
             continue
         off = sub64(j, s.len)
-        new = ex.seq_get(t, off) if t.cap > 1 or is_sym(off) else t.elems[0]
+        co = concrete_int(off)
+        if co is not None and co >= t.cap:
+            new = old if old is not UNINIT else 0      # beyond the new length: unobservable
+        else:
+            new = ex.seq_get(t, off) if t.cap > 1 or is_sym(off) else t.elems[0]
         if old is UNINIT:
             el.append(new)
         else:
@@ -631,18 +635,13 @@ def it_any(ex, args):
 def it_count(ex, args):
     it = args[0]
     if isinstance(it, TakeWhile):
-        alive = True
+        # the count feeds index arithmetic: fork on every element so that it stays a concrete integer
         total = 0
         for v, valid in _items_of_slice_iter(ex, it.inner):
             r = ex.call_value(it.pred, [v])
-            alive = And(alive, valid, r)
-            cb = concrete_bool(alive)
-            if cb is False:
+            if not ex.branch(zbool(And(valid, r))):
                 break
-            if cb is True:
-                total = add64(total, 1)
-            else:
-                total = add64(total, z3.If(alive, z3.BitVecVal(1, 64), z3.BitVecVal(0, 64)))
+            total += 1
         return total
     raise Unsupported('count on %r' % type(it))
 
